@@ -682,11 +682,12 @@ func (in *Interp) storeThrough(pv Val, t types.Type, v Val) {
 		in.symStore(p, t, v)
 		return
 	}
-	if in.ex != nil && in.ex.trackWrites {
-		in.ex.noteWrite(in, p.obj)
-	}
-	if p.obj.shared && in.prog.frozen && in.ex != nil {
-		in.ex.noteGlobalWrite(in, p.obj)
+	if in.ex != nil && in.ex.phase != 0 && in.ex.inOnce == 0 {
+		in.ex.fpW[in.ex.phase][in.heap.rd(p.obj)] = in.curFn()
+		if p.obj.shared {
+			in.ex.events = append(in.ex.events, Event{Kind: "assert", Label: "C17:write-to-package-level-state", Origin: in.curFn(), Msg: p.obj.name})
+			in.end("violation", "write to shared state %s", p.obj.name)
+		}
 	}
 	if err := in.store(p.obj, p.off, t, v); err != nil {
 		in.memFault(err)
@@ -705,6 +706,9 @@ func (in *Interp) loadThrough(pv Val, t types.Type) Val {
 	p := in.ptrOf(pv, "load")
 	if p.idx != nil {
 		return in.symLoad(p, t)
+	}
+	if in.ex != nil && in.ex.phase != 0 && in.ex.inOnce == 0 && !p.obj.shared {
+		in.ex.fpR[in.ex.phase][in.heap.rd(p.obj)] = in.curFn()
 	}
 	if p.obj.pkg != nil && !in.initMode && !in.prog.initDone[p.obj.pkg] {
 		return Val{x: &Poison{"global of uninitialised package " + p.obj.name}}
